@@ -59,8 +59,18 @@ def build_extractor():
 
 def run_extractor():
     """Regenerate the Lean facts from /repo. Returns (ok, message)."""
-    rc, out = sh([os.path.join(BIN, "tdxextract"), "-repo", REPO, "-out", os.path.join(LEAN, "TdxModel", "Generated")], env=GOENV, timeout=300)
+    rc, out = sh([os.path.join(BIN, "tdxextract"), "-repo", REPO, "-out", os.path.join(LEAN, "TdxModel", "Generated"),
+                  "-pinned", os.path.join(ROOT, "extract", "pinned_consts.json")], env=GOENV, timeout=300)
     return rc == 0, out
+
+
+def missing_consts():
+    """constants of the pinned tree that the extractor no longer finds under their name (their pinned values are kept)"""
+    p = os.path.join(LEAN, "TdxModel", "Generated", "missing_consts.txt")
+    try:
+        return [l for l in open(p).read().split("\n") if l]
+    except OSError:
+        return []
 
 
 def lake_build(targets):
@@ -372,6 +382,7 @@ def check(prop, tier, seed):
             "broken_obligations": [b[0] for b in broken],
             "leanchecker_ok": leanchecker,
             "driver_notes": meta.get("notes", {}),
+            "constants_not_found_by_name_pinned_value_kept": missing_consts(),
             "driver_wall_s": round(driver_s, 2),
         },
         "assumptions": spec.get("assumptions", []),
